@@ -62,12 +62,17 @@ enum How {
     InFn,
     InFuture,
     ReEnter,
+    /// `into_parts`, `Ctxt::enter` / `Ctxt::exit` by hand, `from_parts`
+    Manual,
 }
 
 #[derive(Clone, Debug)]
 struct Spec {
     ctxt: usize,
     erased: bool,
+    /// other ways to reach the same context (synchronous uses only): 0 none, 2 `&dyn ErasedCtxt` (no Send + Sync),
+    /// 3 `&ThreadLocalCtxt`, 4 `Option<ThreadLocalCtxt>`, 5 `Arc<ThreadLocalCtxt>`, 6 `Box<dyn ErasedCtxt + Send + Sync>`
+    via: u8,
     kind: FKind,
     props: Vec<(String, V)>,
 }
@@ -185,6 +190,8 @@ impl World {
 struct Strand {
     name: String,
     stacks: [Vec<Map>; 3],
+    /// inside a hand-entered frame: injected panics are skipped (nothing would exit the frame)
+    no_panic: bool,
 }
 
 impl Strand {
@@ -351,6 +358,19 @@ fn use_frame_sync<C: Ctxt>(
             frame.call(|| run_sync(w, s, body, slots));
             s.stacks[c].pop();
         }
+        How::Manual => {
+            w.probe("frame_entered_by_hand_through_parts");
+            let (ctxt, mut inner) = frame.into_parts();
+            ctxt.enter(&mut inner);
+            s.stacks[c].push(value);
+            // (no unwinding protection by construction: the body of a hand-entered frame does not panic)
+            let saved_panics = std::mem::replace(&mut s.no_panic, true);
+            run_sync(w, s, body, slots);
+            s.no_panic = saved_panics;
+            s.stacks[c].pop();
+            ctxt.exit(&mut inner);
+            drop(Frame::from_parts(ctxt, inner));
+        }
         How::InFn => {
             s.stacks[c].push(value);
             let f = frame.in_fn(|| run_sync(w, s, body, slots));
@@ -365,6 +385,7 @@ fn run_sync(w: &Arc<World>, s: &mut Strand, nodes: &Arc<Vec<N>>, slots: &mut Slo
         match n {
             N::Observe => observe(w, s, "at observe"),
             N::Suspend(_) => observe(w, s, "at (sync) suspend"),
+            N::Panic if s.no_panic => {}
             N::Panic => {
                 w.log(format!("{} panics", s.name));
                 w.probe("panic_injected");
@@ -387,8 +408,35 @@ fn run_sync(w: &Arc<World>, s: &mut Strand, nodes: &Arc<Vec<N>>, slots: &mut Slo
                     let frame = make_frame(w.erased(spec.ctxt), spec);
                     use_frame_sync(w, s, frame, spec.ctxt, value, *how, body, slots);
                 } else {
-                    let frame = make_frame(w.ctxts[spec.ctxt], spec);
-                    use_frame_sync(w, s, frame, spec.ctxt, value, *how, body, slots);
+                    let c = w.ctxts[spec.ctxt];
+                    match spec.via {
+                        2 => {
+                            w.probe("via_dyn_erased_without_send_sync");
+                            let e: &dyn ErasedCtxt = &c;
+                            use_frame_sync(w, s, make_frame(e, spec), spec.ctxt, value, *how, body, slots);
+                        }
+                        3 => {
+                            w.probe("via_reference");
+                            use_frame_sync(w, s, make_frame(&c, spec), spec.ctxt, value, *how, body, slots);
+                        }
+                        4 => {
+                            w.probe("via_option");
+                            use_frame_sync(w, s, make_frame(Some(c), spec), spec.ctxt, value, *how, body, slots);
+                        }
+                        5 => {
+                            w.probe("via_arc");
+                            use_frame_sync(w, s, make_frame(Arc::new(c), spec), spec.ctxt, value, *how, body, slots);
+                        }
+                        6 => {
+                            w.probe("via_boxed_erased");
+                            let b: Box<dyn ErasedCtxt + Send + Sync> = Box::new(c);
+                            use_frame_sync(w, s, make_frame(b, spec), spec.ctxt, value, *how, body, slots);
+                        }
+                        _ => {
+                            let frame = make_frame(c, spec);
+                            use_frame_sync(w, s, frame, spec.ctxt, value, *how, body, slots);
+                        }
+                    }
                 }
                 observe(w, s, "after frame");
             }
@@ -422,6 +470,7 @@ fn hand_off_thread(w: &Arc<World>, s: &Strand, carry: bool, body: &Arc<Vec<N>>) 
     let mut child = Strand {
         name: format!("{}>thread{id}", s.name),
         stacks: [Vec::new(), Vec::new(), Vec::new()],
+        no_panic: false,
     };
     w.probe("thread_hand_off");
     let w2 = w.clone();
@@ -481,6 +530,7 @@ fn spawn_task(w: &Arc<World>, s: &Strand, carry: bool, body: &Arc<Vec<N>>) {
     let mut child = Strand {
         name: format!("{}>task{id}", s.name),
         stacks: [Vec::new(), Vec::new(), Vec::new()],
+        no_panic: false,
     };
     w.probe("task_spawned");
     let w2 = w.clone();
@@ -612,9 +662,11 @@ fn gen_props(ch: &mut Choices, fresh: &mut u32) -> Vec<(String, V)> {
 
 fn gen_spec(ch: &mut Choices, fresh: &mut u32) -> Spec {
     let kind = *ch.pick(&[FKind::Push, FKind::Push, FKind::Root, FKind::Disabled, FKind::Current]);
+    let erased = ch.chance(1, 4);
     Spec {
         ctxt: ch.weighted(&[5, 2, 2]),
-        erased: ch.chance(1, 4),
+        erased,
+        via: if !erased && ch.chance(1, 4) { 2 + ch.choose(5) as u8 } else { 0 },
         kind,
         props: gen_props(ch, fresh),
     }
@@ -642,7 +694,7 @@ fn gen_nodes(ch: &mut Choices, depth: u32, budget: &mut u32, fresh: &mut u32, is
                 let how = if is_async {
                     *ch.pick(&[How::InFuture, How::InFuture, How::Enter, How::With, How::Call, How::InFn, How::ReEnter])
                 } else {
-                    *ch.pick(&[How::Enter, How::With, How::Call, How::InFn, How::ReEnter])
+                    *ch.pick(&[How::Enter, How::With, How::Call, How::InFn, How::ReEnter, How::Manual])
                 };
                 let body_async = is_async && how == How::InFuture;
                 let body = gen_nodes(ch, depth + 1, budget, fresh, body_async);
@@ -764,6 +816,7 @@ impl Engine for CtxFrames {
             let strand = Strand {
                 name: name.clone(),
                 stacks: [Vec::new(), Vec::new(), Vec::new()],
+                no_panic: false,
             };
             tasks.push((
                 Box::pin(async move {
